@@ -120,6 +120,53 @@ Definition cf2d_synth_cell (ny nx : Z) (lon lat : list (list oq)) (j i : Z) : op
 Definition cf2d_synth_raw (ny nx : Z) (lon lat : list (list oq)) : list (option ring) :=
   grid_list ny nx (cf2d_synth_cell ny nx lon lat).
 
+(* CFGrid2DTopology._get_or_make_bounds: a stored bounds variable is used only when its dimensions are
+   (y, x, <any>) and the last one has size 4; otherwise (ConventionViolationWarning) the bounds of that coordinate are
+   synthesised, independently for longitude and latitude.  Dimensions are identified by numbers. *)
+Inductive stored_bounds :=
+| NoBounds
+| Stored (dims : list Z) (last_size : Z) (vals : list (list (list oq))).
+
+Definition cf2d_bounds_ok (ydim xdim : Z) (dims : list Z) (last_size : Z) : bool :=
+  match dims with
+  | [a; b; _] => (a =? ydim) && (b =? xdim) && (last_size =? 4)
+  | _ => false
+  end.
+
+Definition cf2d_coord_bounds (ny nx ydim xdim : Z) (c : list (list oq)) (b : stored_bounds) (j i : Z) : list oq :=
+  match b with
+  | Stored dims sz vals =>
+      if cf2d_bounds_ok ydim xdim dims sz then map (at3 vals j i) [0; 1; 2; 3] else synth_cell ny nx c j i
+  | NoBounds => synth_cell ny nx c j i
+  end.
+
+Definition cf2d_raw (ny nx ydim xdim : Z) (lon lat : list (list oq)) (lonb latb : stored_bounds) : list (option ring) :=
+  grid_list ny nx (fun j i => ring_of (combine (cf2d_coord_bounds ny nx ydim xdim lon lonb j i)
+                                               (cf2d_coord_bounds ny nx ydim xdim lat latb j i))).
+
+(* CFGrid1DTopology._get_or_make_bounds: dimensions (<the coordinate's dimension>, <any>), the last of size 2 *)
+Inductive stored_bounds1 :=
+| NoBounds1
+| Stored1 (dims : list Z) (last_size : Z) (vals : list (Q * Q)).
+
+Definition cf1d_bounds_ok (cdim : Z) (dims : list Z) (last_size : Z) : bool :=
+  match dims with
+  | [a; _] => (a =? cdim) && (last_size =? 2)
+  | _ => false
+  end.
+
+Definition cf1d_coord_bounds (cdim : Z) (v : list Q) (b : stored_bounds1) : option (list (Q * Q)) :=
+  match b with
+  | Stored1 dims sz vals => if cf1d_bounds_ok cdim dims sz then Some vals else cf1d_synth v
+  | NoBounds1 => cf1d_synth v
+  end.
+
+Definition cf1d_polys (ydim xdim : Z) (lon lat : list Q) (lonb latb : stored_bounds1) : option (list (option ring)) :=
+  match cf1d_coord_bounds xdim lon lonb, cf1d_coord_bounds ydim lat latb with
+  | Some xb, Some yb => Some (cf1d_raw xb yb)
+  | _, _ => None
+  end.
+
 Definition cf2d_centres (ny nx : Z) (lon lat : list (list oq)) : list (oq * oq) :=
   grid_list ny nx (fun j i => (at2 lon j i, at2 lat j i)).
 
